@@ -174,13 +174,49 @@ Definition operand_regs (m : memoperand) : list Z :=
 Definition instr_regs (ops : list memoperand) : list Z :=
   fold_left (fun acc id => insert_reg id acc) (flat_map operand_regs ops) [].
 
-(* a decoded instruction without implicit accesses and without instruction-pointer update:
-   [lea] = the opcode is LEA (explicit operands are skipped); [memsize] = instruction.mem_size() is Some;
-   [ops] = its memory operands (MemoryOperandInfo), in operand order *)
-Record dinstr := { di_lea : bool; di_memsize : bool; di_ops : list memoperand }.
+(* a decoded instruction, as far as the analysis looks at it:
+   [lea] = the opcode is LEA (explicit operands are skipped); [memsize] = instruction.mem_size() is Some (if not,
+   the access list is empty: "doesn't access memory" shortcut, which also skips the implicit access);
+   [ops] = its memory operands (MemoryOperandInfo), in operand order;
+   [implicit] = the stack access of CALL/PUSH (write at rsp-8) or POP/RET (read at rsp);
+   [ip] = what InstructionPointerUpdate::from_instruction does *)
+Inductive implicit_kind := ImpNone | ImpPushCall | ImpPopRet.
+Inductive ip_kind :=
+  | IpkNoUpdate                 (* any opcode that is not a call/jmp/ret/jcc *)
+  | IpkUndetermined             (* jcc; call/jmp with an immediate; unreadable target *)
+  | IpkReg (id : Z)             (* call/jmp through a register *)
+  | IpkRead (v : option Z).     (* call/jmp through memory, ret: the u64 read from the dump (None = not in the dump) *)
+Record dinstr := { di_lea : bool; di_memsize : bool; di_ops : list memoperand;
+                   di_implicit : implicit_kind; di_ip : ip_kind }.
+
+Definition RSP_ID : Z := 7.
+Definition plain_info (a : Z) : addr_info := {| ai_addr := a; ai_null := a =? 0 |}.
+Definition implicit_access (k : implicit_kind) (pc : pcontext) : list addr_info :=
+  match k with
+  | ImpNone => []
+  | ImpPushCall => match get_register pc RSP_ID with Some v => [plain_info (wrap64 (v - 8))] | None => [] end
+  | ImpPopRet => match get_register pc RSP_ID with Some v => [plain_info v] | None => [] end
+  end.
+Definition ip_of (k : ip_kind) (pc : pcontext) : option ip_update :=
+  match k with
+  | IpkNoUpdate => Some IpNoUpdate
+  | IpkUndetermined => None
+  | IpkReg id => option_map (fun v => IpUpdate (plain_info v)) (get_register pc id)
+  | IpkRead v => option_map (fun v => IpUpdate (plain_info v)) v
+  end.
+
+Definition explicit_accesses (di : dinstr) (pc : pcontext) : option (list addr_info) :=
+  if di_lea di then Some [] else sequence (map (operand_address pc) (di_ops di)).
 
 Definition analyze_dinstr (di : dinstr) (pc : pcontext) : option op_analysis :=
-  Some {| oa_accesses := if negb (di_memsize di) || di_lea di then Some []
-                         else sequence (map (operand_address pc) (di_ops di));
-          oa_ip := Some IpNoUpdate;
+  Some {| oa_accesses := if negb (di_memsize di) then Some []
+                         else option_map (fun l => l ++ implicit_access (di_implicit di) pc) (explicit_accesses di pc);
+          oa_ip := ip_of (di_ip di) pc;
           oa_regs := instr_regs (di_ops di) |}.
+
+(* ------------------------------------------------------------ the memory map as stream records *)
+(* MINIDUMP_MEMORY_INFO records (base_address, region_size, protection) / Linux maps lines (start, end, rwx bits) *)
+Definition regions_of_info (l : list (Z * Z * Z)) : list region :=
+  map (fun e => let '(a, b, p) := e in region_of_info a b p) l.
+Definition regions_of_maps (l : list (Z * Z * Z)) : list region :=
+  map (fun e => let '(a, b, p) := e in region_of_map a b (Z.testbit p 2) (Z.testbit p 1) (Z.testbit p 0)) l.
